@@ -1,6 +1,7 @@
 import PpciVerif.Model.Py2Ir
 import PpciVerif.Spec.IRArith
 import PpciVerif.Spec.Py
+import PpciVerif.Spec.IR
 /-
 Model.Py2IrSem — what the straight-line i64 code emitted by `Model.Py2Ir.genExpr` computes,
 according to the IR run-time arithmetic `Spec.IRArith` (no Mathlib).
@@ -66,5 +67,42 @@ def runArith (op : String) (a b : Int) : Except Err (Option Int) :=
     .ok (match exec (fun _ => none) code ⟨[a, b], fun _ => none⟩ with
       | some r => r.get v
       | none => none)
+
+
+/-! ### conditions: control flow through the blocks of the event log -/
+
+/-- truth value of the `CJump` condition written `sym` on two ints (`Spec.IR.evalCond`) -/
+def condHolds? (sym : String) (x y : Int) : Option Bool :=
+  match Spec.IR.Cond.all.find? (fun c => c.symbol = sym) with
+  | none => none
+  | some c =>
+    match Spec.IR.evalCond c (.int x) (.int y) with
+    | .ok b => some b
+    | .error _ => none
+
+/-- run the instructions of a block up to its terminator: the block entered next and the registers -/
+def stepBlock (μ : Val → Option Int) : List Instr → Regs → Option (Nat × Regs)
+  | [], _ => none
+  | .cjump a op b y n :: _, r =>
+    match r.get a, r.get b with
+    | some x, some z =>
+      match condHolds? op x z with
+      | some true => some (y, r)
+      | some false => some (n, r)
+      | none => none
+    | _, _ => none
+  | .jump t :: _, r => some (t, r)
+  | i :: is, r =>
+    match execInstr μ r i with
+    | some r' => stepBlock μ is r'
+    | none => none
+
+/-- `Arrives μ L P is r t r'`: executing the code `is` (the rest of the current block) and then
+    following jumps through the blocks of the event log `L`, control enters block `t` with
+    registers `r'`; every block entered before `t` satisfies `P`. -/
+inductive Arrives (μ : Val → Option Int) (L : List Event) (P : Nat → Prop) : List Instr → Regs → Nat → Regs → Prop
+  | here {is r t r'} : stepBlock μ is r = some (t, r') → Arrives μ L P is r t r'
+  | next {is r u r1 t r'} : stepBlock μ is r = some (u, r1) → P u →
+      Arrives μ L P (blockInstrs L u) r1 t r' → Arrives μ L P is r t r'
 
 end Model.Py2Ir
